@@ -124,15 +124,26 @@ class Scheduler:
             while pid not in self.at and pid not in self.result:
                 self.cv.wait()
 
-    def run(self, events):
+    def run(self, events, lazy=False):
+        """lazy: a thread is started only when its first event arrives, i.e. after whatever the earlier ones did - a later call in the same
+        interpreter (module state survives); otherwise all are started first and wait at their first system call - separate processes"""
         self.install()
+        started = set()
+
+        def start(p):
+            t = threading.Thread(target=self.body, args=(p,), daemon=True); self.threads.append(t); t.start()
+            self.wait_blocked_or_done(p); started.add(p)
         try:
-            for p in range(self.n):
-                t = threading.Thread(target=self.body, args=(p,), daemon=True); self.threads.append(t); t.start()
-                self.wait_blocked_or_done(p)
+            if not lazy:
+                for p in range(self.n):
+                    start(p)
             for kind, p in events:
                 if p >= self.n or p in self.result:
                     continue                    # events for finished processes are no-ops (as in the model)
+                if p not in started:
+                    start(p)
+                    if p in self.result:        # finished without a single system call (the model's process would still be at its first point)
+                        continue
                 with self.cv:
                     self.cmd[p] = {"s": "run", "c": "crash", "f": "fail"}[kind]
                     self.cv.notify_all()
@@ -142,7 +153,7 @@ class Scheduler:
             status = {}
             with self.cv:
                 for p in range(self.n):
-                    status[p] = self.result[p] if p in self.result else f"at{POINTS[self.at[p]]}"
+                    status[p] = self.result[p] if p in self.result else ("at0" if p not in started else f"at{POINTS[self.at[p]]}")
                 for p in list(self.at):
                     self.cmd[p] = "abort"
                 self.cv.notify_all()
@@ -202,7 +213,8 @@ def stream_salt(ctx, built, count, name="S-salt"):
             prebytes = {"valid": R.getrandbits(64).to_bytes(8, "little"), "short": b"abc", "empty": b""}[pre]
             with open(os.path.join(cdir, "salt.bin"), "wb") as f: f.write(prebytes)
         try:
-            status = Scheduler(S, cdir, cands).run(ev)
+            lazy = si % 2 == 1           # every other scenario: the runs are successive calls in one interpreter
+            status = Scheduler(S, cdir, cands).run(ev, lazy=lazy)
             sp = os.path.join(cdir, "salt.bin")
             final = open(sp, "rb").read() if os.path.isfile(sp) else None
             leftovers = [x for x in (os.listdir(cdir) if os.path.isdir(cdir) else []) if x != "salt.bin"]
@@ -213,9 +225,9 @@ def stream_salt(ctx, built, count, name="S-salt"):
         lines.append(f"salt {'absent' if prebytes is None else (prebytes.hex() or '-')} {n} " + " ".join(c.to_bytes(8, 'little').hex() for c in cands) + " | " + evs)
         exps.append(exp)
         switches = sum(1 for a, b in zip(ev, ev[1:]) if a[1] != b[1])
-        case = {"processes": n, "preexisting": pre, "events": evs, "impl": exp}
+        case = {"processes": n, "preexisting": pre, "events": evs, "impl": exp, "runs": "successive calls in one interpreter" if lazy else "separate processes"}
         cases.append((case, status, final, prebytes, cands, n))
-        St.count((evs, pre, n), switches > 0 or any(k != "s" for k, _ in ev), case, tag=(pre or "fresh") + f"/{n}")
+        St.count((evs, pre, n), switches > 0 or any(k != "s" for k, _ in ev), case, tag=(pre or "fresh") + f"/{n}" + ("/same-interpreter" if lazy else ""))
         # the property on the real outcome
         returned = [bytes.fromhex(v[3:]) if v != "ok:-" else b"" for v in status.values() if v.startswith("ok:")]
         if any(len(v) < 8 for v in returned):
